@@ -13,7 +13,7 @@ SPEC = dict(
                     "osutil/io.go; Checkpoint = osutil.AtomicWriteFile; snapdUnsafeIO needs a test binary")],
     drivers=[
         dict(name="strace", kind="main", pkg="./zzverif/c06",
-             n=dict(quick=110, thorough=1500), timeout=dict(quick=300, thorough=1500),
+             n=dict(quick=190, thorough=1500), timeout=dict(quick=300, thorough=1500),
              ev=dict(requires=["V.lib.Bytes", "V.gen.CommitOrder", "V.models.AtomicWrite"], case_type="AtomicWrite.case",
                      mismatch="AtomicWrite.mismatch", monitor="AtomicWrite.monitor_fail")),
     ],
@@ -27,7 +27,10 @@ SPEC = dict(
           "trace and EVERY crash outcome (each unsynced directory update kept or lost, each unsynced inode cut at any "
           "byte), that the target shows the complete content before the call or the complete content asked for, and only "
           "the latter once the call has returned; and compares the trace with the model's operation list built from "
-          "gen/CommitOrder.v. Non-trivial = at least one call that publishes content and a fully parsed trace."),
+          "gen/CommitOrder.v. ERROR PATHS: a second child drops privileges (setgroups/setgid/setuid 65534) and runs the same calls in directories owned by "
+          "that uid whose mode is 0300 (writable+searchable, not openable), 0100, 0500, 0700 (control), and with the directory renamed away between the "
+          "writes and Commit; a call that returns an error entitles the caller to the OLD content (target untouched at every crash point), a call that returns "
+          "success to the new one. Non-trivial = at least one call that publishes content or returns an error, and a fully parsed trace."),
     exhaustive=dict(quick=False, thorough=False),
     trusted_base=[
         "ASSUMED file-system persistence model (coq/models/AtomicWrite.v head comment): directory updates atomic and durable at fsync(dir), "
@@ -41,5 +44,7 @@ SPEC = dict(
                  "and the generated call order is proved to satisfy their hypotheses for all data.",
                  "files are written append-only through the descriptor that created them (O_CREAT|O_EXCL); pwrite/truncate/link/open-for-write of an existing file are outside the model's language and reported as unparsed if observed",
                  "metadata (owner, mtime, mode) is not part of the checked content",
+                 "error exits: commit's calls may each fail (C06_commit_error_exits / C06_write_error_exits quantify over the failing call); failures of NewAtomicFile (nothing happens) and of io.Copy (partial writes, then Cancel) are observed by the driver but not part of the theorem",
+                 "the error-path family needs a driver started as root (it drops to uid 65534 in a child)",
                  "snapdUnsafeIO is false in the driver because it is not a test binary; the translator checks that it can only be true in one"],
 )
